@@ -237,10 +237,7 @@ theorem nli_perm (len : ℝ) (cs cs' : List (LCh ℝ)) (hp : cs.Perm cs')
 /-! ### the fibre coefficients -/
 
 /-- `alpha = loss[dB/m] · ln 10 / 10` -/
-theorem alpha_is_db (c : ℝ) : alphaOfLoss c = c * Real.log 10 / 10 := by
-  simp only [alphaOfLoss, transc_log, transc_exp, Nat.cast_ofNat, Nat.cast_one, Real.log_exp]
-  have := log10_ne
-  field_simp
+theorem alpha_is_db (c : ℝ) : alphaOfLoss c = c * Real.log 10 / 10 := alphaOfLoss_eq c
 
 /-- `β₂ = −λ² D / (2π c)` with `λ = c / f`; a positive dispersion parameter gives a negative β₂ -/
 theorem beta2_formula (f d : ℝ) (hf : 0 < f) :
